@@ -389,7 +389,14 @@ def oracle(case):
             return [Violation("c11:challenge", case, "no nonce in the challenge %r" % (chal[:120],))]
         nonce = m.group(1)
     scenario = rng.choice(["correct", "correct", "mutated", "mutated", "mutated", "nonce-age", "broken", "absent", "wrong-method",
-                           "other-user", "suffix-uri", "foreign-nonce", "wrong-password", "unknown-user", "not-the-required-user"])
+                           "other-user", "suffix-uri", "foreign-nonce", "wrong-password", "unknown-user", "not-the-required-user",
+                           "no-users-in-realm"])
+    if scenario == "no-users-in-realm":
+        # the user table knows nothing of the endpoint's realm (no entry, an empty one, or other realms only)
+        users = rng.choice([(), (("Other", "intruder", hexd(hfun, "intruder:Other:pw")),), ((realm + "2", user, hexd(hfun, "x")),)])
+        app = get_app(alg, qop, users, realm, requser, secret, timeout)
+        if rng.random() < 0.3:
+            app.auth_map = dict(app.auth_map, **{realm: {}})
     if scenario == "not-the-required-user" and (requser is None or len(pool) < 2):
         # the endpoint is reserved for one user; another registered user of the same realm presents correct credentials
         pool = rng.sample(USERS, rng.randrange(2, 5)) if rng.random() < 0.5 else \
@@ -468,6 +475,12 @@ def oracle(case):
                              hexd(hfun, "%s:%s:%s" % (ghost, realm, password))])
         f = client_fields(hfun, alg, qop, ghost, realm, "irrelevant", nonce, method, uri, opaque_of(), stored=stored)
         expect_run, note = False, "user %r, hash taken as %r" % (ghost, stored[:12])
+    elif scenario == "no-users-in-realm":
+        name = rng.choice([user, requser or "admin", "ghost", ""])
+        stored = rng.choice(["None", "", "False", "0", "null", "{}", name, hexd(hfun, "%s:%s:%s" % (name, realm, "")),
+                             hexd(hfun, "%s:%s:None" % (name, realm))])
+        f = client_fields(hfun, alg, qop, name, realm, "irrelevant", nonce, method, uri, opaque_of(), stored=stored)
+        expect_run, note = False, "no user is registered in the realm; name %r, hash taken as %r" % (name, stored[:12])
     elif scenario == "not-the-required-user":
         other, opw = rng.choice([u for u in pool if u[0] != requser])
         f = client_fields(hfun, alg, qop, other, realm, opw, nonce, method, uri, opaque_of())
